@@ -3,8 +3,10 @@
      world line := "D" key "U" n rune* "W" n (name decl)*      (defines world <key>)
      case line  := "X" key "U" n rune* "O" n op*                (ops on a fresh copy of world <key>)
      decl := "I" z | "F" n name* body | "H" n (name decl)* | "P" name n (name decl)* | "R" n name*
-     body := "G" name | "S" name | "D" n name* | "W" n name* | "C" n name* n z*
-     op   := "g" route n name* | "s" route n name* z | "c" n name* n z* | "v" param argsym n name* n z*
+     decl also "Z" (nil)
+     body := "G" name | "S" name | "K" name | "D" n name* | "W" n name* | "C" n name* n z*
+     op   := "g" route n name* | "s" route n name* z | "c" n name* n z* | "v" wname param argsym n name* n z*
+             | "f" n target* n source*
    route (projection of a read): full | plus | type
    Output: ID<TAB>model observables joined by "|"<TAB>specification observables joined by "|" *)
 open Model
@@ -42,6 +44,7 @@ let parse_body () =
   | "S" -> BSet (next_name ())
   | "D" -> BDot (names ())
   | "W" -> BDotSet (names ())
+  | "K" -> BClear (next_name ())
   | "C" -> let p = names () in let n = next_int () in
            BDotCall (p, times n (fun () -> z_of_string (next ())))
   | t -> failwith ("bad body " ^ t)
@@ -54,6 +57,7 @@ let rec parse_decl () =
   | "P" -> let pn = next_name () in let n = next_int () in
            DPkg (pn, times n (fun () -> let k = next_name () in let d = parse_decl () in (k, d)))
   | "R" -> DRef (names ())
+  | "Z" -> DNil
   | t -> failwith ("bad decl " ^ t)
 
 type pop = { o : op; route : string }
@@ -63,10 +67,11 @@ let parse_op () =
   | "s" -> let r = next () in let p = names () in let z = z_of_string (next ()) in { o = OpSet (p, z); route = "full" }
   | "c" -> let p = names () in let n = next_int () in
            let args = times n (fun () -> z_of_string (next ())) in { o = OpCall (p, args); route = "full" }
-  | "v" -> let param = next_name () in let argsym = next_name () in
+  | "v" -> let wname = next_name () in let param = next_name () in let argsym = next_name () in
            let p = names () in let n = next_int () in
            let args = times n (fun () -> z_of_string (next ())) in
-           { o = OpCallVia (param, argsym, p, args); route = "full" }
+           { o = OpCallVia (wname, param, argsym, p, args); route = "full" }
+  | "f" -> let t = names () in let src = names () in { o = OpSetFrom (t, src); route = "setfrom" }
   | t -> failwith ("bad op " ^ t)
 
 (* rendering of values; hashes by content (insertion order), packages by name *)
@@ -84,6 +89,7 @@ let rec show_val (h : heap) (depth : int) (v : val0) : string =
 
 let project route h v =
   match route, v with
+  | "setfrom", _ -> "SET"
   | "plus", VInt _ -> show_val h 0 v
   | "plus", _ -> "OTHER"
   | "type", VInt _ -> "T:int64"
@@ -103,7 +109,7 @@ let show_err = function
   | ENotFun -> "OTHER"   (* calling a non-function with arguments: not a dot-path outcome *)
   | EInternal -> "INTERNAL"
   | ECrash -> "CRASH"
-  | EFuel -> "FUEL"
+  | EFuel -> "BUDGET"
 
 let worlds : (string, int list * heap option) Hashtbl.t = Hashtbl.create 16
 
@@ -137,6 +143,7 @@ let () =
             | NotFound -> "NF"
             | NotRecord -> "NOTREC"
             | NotCallable -> "OTHER"
+            | Unbounded -> "BUDGET"
             | Malformed -> "MALFORMED") ops in
           Printf.printf "%s\t%s\t%s\n" id (String.concat "|" mo) (String.concat "|" so) in
         (match next () with
